@@ -158,6 +158,11 @@ func c16CheckLen(c C16Len) *pbt.Violation {
 	if c.Body >= 2 {
 		body[c.Body-1], body[c.Body-2] = 0, 0
 	}
+	if d := int(c.Declared); d >= 10 && d <= c.Body {
+		// the frame proper is the first `declared` bytes: ITS last two bytes are the terminators (a reader may
+		// insist on them; what follows the frame belongs to the next one)
+		body[d-1], body[d-2] = 0, 0
+	}
 	w = append(w, body...)
 	rc := &mcnet.RCONConn{Conn: iox.RWConn{R: iox.NewSrc(w)}}
 	var err error
